@@ -131,7 +131,7 @@ def gen_param(r, rich=True, p_typ=0.85, p_doc=0.85):
 
 
 F_TYPS = ["int", "str", "float", "bool", "Optional[int]", "Optional[str]", "Optional[bool]", "List[str]", "List[int]",
-          "Literal['alpha', 'beta']", "Literal['read only', 'read write']", "Union[int, float]", "np.ndarray", None]  # fmt: skip
+          "Literal['alpha', 'beta']", "Literal['read only', 'read write']", "Union[int, float]", "Union[int, str]", "np.ndarray", None]  # fmt: skip
 F_DOCS = ["plain", None, "comma", "optional-prefix", "two-sentences"]
 F_DEFS = ["absent", "none", "zero", "nonzero", "code"]
 F_SIZE = len(F_TYPS) * len(F_DOCS) * len(F_DEFS) * 3
@@ -180,6 +180,8 @@ def _focus_shape(r, i, p_typ, p_doc):
             f["default"] = "```[]```" if z else "```[1, 2]```"
         elif typ == "Union[int, float]":
             f["default"] = 0 if z else 1.5
+        elif typ == "Union[int, str]":
+            f["default"] = 0 if z else r.choice([-7, 3, "auto", -0.5])
         else:
             f["default"] = "```[]```" if z else "```['a']```"
     return pos, f
